@@ -71,6 +71,21 @@ theorem unclean_request_can_miss :
     (Ex.finish [.cancel 1, .load 1 [3], .load 2 [3]]).log = [] ∧
     (Ex.finish [.cancel 1, .load 1 [3], .load 2 [3]]).failed = [3] := Ex.one_load_not_enough'
 
+/-- Known finding K2 — what "completes" needs: the fetch of every retried hash returns. A cancelled
+request leaves the hash of an unavailable ancestor (1) in the retry list; the next request (never
+cancelled: the same head 2 and the newer, entirely available head 6) retries it under its own context;
+6 and 5 are fetched and buffered, and in that state NO move of the replicator or of the store other
+than the return of the hung fetch changes anything: the store does not see 6 and 5 while the block of
+1 stays unavailable. Once it is served everything arrives. (replayed on the real replicator:
+corpus/C11/k2) -/
+theorem hung_retry_withholds_what_was_fetched :
+    Ex.wedged.log = [2] ∧ Ex.wedged.buffer = [6, 5] ∧ Ex.wedged.pending = [] ∧
+    (∀ a : Act, a ≠ .fetched 0 → a ≠ .fetchFail 0 → (∀ c hs, a ≠ .load c hs) → (∀ c, a ≠ .cancel c) →
+      step Ex.netK Ex.wedged a = Ex.wedged) ∧
+    (drain Ex.netK 40 Ex.wedged).log = [2, 6, 5, 1] := by
+  refine ⟨?_, ?_, ?_, fun a h1 h2 h3 h4 => Ex.hung_retry_withholds a h1 h2 h3 h4,
+    Ex.wedge_ends_when_the_block_is_served.1⟩ <;> rw [Ex.wedged_eq]
+
 /-- Refutation witness for the pinned tree (finding F7, repaired): one pre-cancelled request leaves a
 queued item without a worker for ever; the same heads and even a newer head never arrive. -/
 theorem pinned_tree_wedges :
